@@ -365,6 +365,15 @@ func (st *State) boolOf(b *BoolV) (val, known bool) {
 	if b.Known {
 		return b.Val, true
 	}
+	if v, ok := st.boolF[b]; ok {
+		return v, true
+	}
+	if b.Op == "isnil" {
+		if isNil, ok := st.nilF[b.X]; ok {
+			return isNil, true
+		}
+		return false, false
+	}
 	if b.Not != nil {
 		v, k := st.boolOf(b.Not)
 		return !v, k
@@ -386,6 +395,20 @@ func (st *State) assumeBool(b *BoolV, want bool) bool {
 	}
 	if b.Not != nil {
 		return st.assumeBool(b.Not, !want)
+	}
+	if b.Op == "isnil" {
+		if st.nilF == nil {
+			st.nilF = map[Val]bool{}
+		}
+		st.nilF[b.X] = want
+		return true
+	}
+	if b.Op == "" {
+		if st.boolF == nil {
+			st.boolF = map[*BoolV]bool{}
+		}
+		st.boolF[b] = want
+		return true
 	}
 	if b.Op != "" {
 		x, ok1 := b.X.(*IntV)
@@ -901,6 +924,13 @@ func (ex *Exec) compare(st *State, op token.Token, a, b Val) Val {
 		}
 	case *PtrV:
 		if y, ok := b.(*PtrV); ok {
+			if (x.Nil && y.Unk) || (y.Nil && x.Unk) {
+				o := x
+				if x.Nil {
+					o = y
+				}
+				return st.nilTest(o, op)
+			}
 			if !x.Unk && !y.Unk {
 				eq := false
 				if x.Nil || y.Nil {
@@ -929,7 +959,7 @@ func (ex *Exec) compare(st *State, op token.Token, a, b Val) Val {
 					return &BoolV{Known: true, Val: op == token.NEQ}
 				}
 			}
-			return &BoolV{}
+			return st.nilTest(other, op)
 		}
 	case *IfaceV:
 		if y, ok := b.(*IfaceV); ok {
@@ -944,6 +974,7 @@ func (ex *Exec) compare(st *State, op token.Token, a, b Val) Val {
 				if !o.Unk || o.NonNil {
 					return &BoolV{Known: true, Val: op == token.NEQ}
 				}
+				return st.nilTest(o, op)
 			}
 			return &BoolV{}
 		}
@@ -959,7 +990,7 @@ func (ex *Exec) compare(st *State, op token.Token, a, b Val) Val {
 			if !o.Unk {
 				return &BoolV{Known: true, Val: op == token.NEQ}
 			}
-			return &BoolV{}
+			return st.nilTest(o, op)
 		}
 	case *StrV:
 		if y, ok := b.(*StrV); ok && x.Known && y.Known {
@@ -1108,4 +1139,20 @@ func (ex *Exec) convert(fr *Frame, st *State, x *ssa.Convert) Val {
 		}
 	}
 	return v
+}
+
+// nilTest builds the boolean "v == nil" (or != nil) for an unknown reference value, consulting
+// and later refining identity-keyed nil facts of the state.
+func (st *State) nilTest(v Val, op token.Token) *BoolV {
+	b := &BoolV{Op: "isnil", X: v}
+	if isNil, ok := st.nilF[v]; ok {
+		b = &BoolV{Known: true, Val: isNil}
+	}
+	if op == token.NEQ {
+		if b.Known {
+			return &BoolV{Known: true, Val: !b.Val}
+		}
+		return &BoolV{Not: b}
+	}
+	return b
 }
